@@ -119,6 +119,9 @@ class guard:
         if issubclass(et, core.ControlFlow) or (self.allow and issubclass(et, self.allow)):
             return False
         if issubclass(et, Exception):
+            # the exception may come from the code under test or from an abstract value that reached native code: besides the path's own
+            # model, spread-out models of the path go to the concrete replay as well
+            core.cur()._concolic_fallback('%s raised %s' % (self.what, et.__name__))
             rp = self.replay() if callable(self.replay) else self.replay
             raise core.Violation('%s raised %s: %s' % (self.what, et.__name__, str(e)[:80]), {'key': self.key, 'replay': rp})
         return False
